@@ -158,6 +158,16 @@ def framework_workbook(spec):
     ws.append(["Alive", "alive"])
     ws.append(["Ever infected", "inf_all"])
     ws.append(["Treated", "s3"])
+    # framework-defined plots, including flow selectors and a named aggregation (as the TB library framework has)
+    ws = wb.create_sheet("Plots")
+    ws.append(["Name", "Type", "Quantities", "Plot group"])
+    ws.append(["Population size", "series", "alive", "Stocks"])
+    ws.append(["Treated", "series", "s3", "Stocks"])
+    ws.append(["New infections", "series", "foi:flow", "Flows"])
+    ws.append(["Arrivals in care", "series", ":s3", "Flows"])
+    ws.append(["Leaving infection", "series", "s2:", "Flows"])
+    ws.append(["Movement", "series", "{'Into or out of treatment':[':s3','s3:']}", "Flows"])
+    ws.append(["Treated fraction", "series", "tx_frac", None])
     f = io.BytesIO()
     wb.save(f)
     f.seek(0)
